@@ -53,6 +53,14 @@ Judge(c, D) ==
      /\ \A p \in bad : PrintT(<<"FAIL", c.scn, p, res[p]>>)
      /\ (c.hasexp /\ NormB(c.exp) # NormB(c.h)) => PrintT(<<"DRIFT", c.scn>>)
 
+\* a batch whose items are all equal to each other (the same number, string, pointer, error value ...): they are n items
+\* all the same - each is handed to exec once and has its slot (the harness counts; family batchdup)
+JudgeDup(c) ==
+  LET F == SelectSeq(c.h, LAMBDA e : e.ev = "dupfacts")
+      ok == /\ Len(F) = 1 /\ ~F[1].hung /\ ~F[1].panicked /\ ~F[1].iserr
+            /\ F[1].execs = c.cfg.n /\ F[1].items = c.cfg.n /\ F[1].slots = c.cfg.n /\ F[1].okslots = c.cfg.n /\ F[1].posts = 1
+  IN \A p \in {q \in {"C06", "C07"} : Want(q) /\ ~ok} : PrintT(<<"FAIL", c.scn, p, {"equalItemsAreItems"}>>)
+
 HitKeys == {"concurrent", "retried", "fallback", "stopmode", "failedItem", "skipped", "cancelled", "emptyBatch", "overlapped"}
 
 Init == /\ i = 1
@@ -63,7 +71,11 @@ Next ==
   /\ i' = i + 1
   \* TLC does not cache LET definitions while it evaluates an action: binding the digest with a
   \* quantifier over a singleton set makes it a value that is computed once
-  /\ \E c \in {Trace[i]} : \E D \in {P!Digest(c.cfg, c.h)} : \E x \in {P!BatchHits(c.cfg, D)} :
+  /\ \E c \in {Trace[i]} :
+      IF c.fam = "batchdup"
+      THEN /\ JudgeDup(c)
+           /\ stats' = [stats EXCEPT !.scenarios = @ + 1, !.events = @ + Len(c.h)]
+      ELSE \E D \in {P!Digest(c.cfg, c.h)} : \E x \in {P!BatchHits(c.cfg, D)} :
         /\ Judge(c, D)
         /\ stats' = [scenarios |-> stats.scenarios + 1, events |-> stats.events + Len(c.h),
                      hits |-> [k \in HitKeys |-> stats.hits[k] + (IF x[k] THEN 1 ELSE 0)]]
